@@ -234,7 +234,7 @@ _ARITH = {"Add": "add", "Sub": "sub", "Mult": "mul", "Div": "truediv", "FloorDiv
 _CMP = {"Lt": "lt", "LtE": "le", "Gt": "gt", "GtE": "ge", "Eq": "eq", "NotEq": "ne"}
 _PYOP_TO_ATEN = {"Add": "add", "Sub": "sub", "Mult": "mul", "Div": "div", "FloorDiv": "floor_divide", "Lt": "lt",
                  "LtE": "le", "Gt": "gt", "GtE": "ge", "Eq": "eq", "NotEq": "ne", "LShift": "__lshift__",
-                 "RShift": "__rshift__", "BitAnd": "bitwise_and", "BitOr": "bitwise_or", "MatMult": "matmul"}
+                 "RShift": "__rshift__", "BitAnd": "bitwise_and", "BitOr": "bitwise_or", "MatMult": "matmul", "Pow": "pow"}
 
 
 def binary(E, op, a, b, node=None):
@@ -990,7 +990,7 @@ def _isfinite_like(which):
 
 ATEN = {
     "add": _bin("add"), "sub": _bin("sub"), "mul": _bin("mul"), "div": _bin("truediv"),
-    "floor_divide": _bin("floordiv"), "__lshift__": _bin("lshift"), "__rshift__": _bin("rshift"),
+    "pow": _bin("pow"), "floor_divide": _bin("floordiv"), "__lshift__": _bin("lshift"), "__rshift__": _bin("rshift"),
     "bitwise_and": _bin("and"), "bitwise_or": _bin("or"), "bitwise_right_shift": _bin("rshift"),
     "bitwise_left_shift": _bin("lshift"),
     "lt": _bin("lt"), "le": _bin("le"), "gt": _bin("gt"), "ge": _bin("ge"), "eq": _bin("eq"), "ne": _bin("ne"),
